@@ -137,9 +137,58 @@ def histories(tier):
     return n, fails
 
 
+def train_runs():
+    """bounded: real ml.train on a one-parameter model; the patience conditions must run >= 1 epoch, stop on a plateau and
+    hand back the best model; EpochStop(n) runs exactly n epochs"""
+    import jax, equinox as eqx, optax, jax.random as random
+    import ginjax.geometric as geom
+    import ginjax.models as models
+
+    class Tiny(models.MultiImageModule):
+        w: jax.Array
+
+        def __init__(self, w):
+            self.w = jnp.array(w, dtype=jnp.float32)
+
+        def __call__(self, x, aux=None):
+            return x, aux
+
+    X = geom.MultiImage({(0, 0): jnp.ones((4, 1, 2, 2))}, 2)
+    fails, n = [], 0
+    counter = {"n": 0}
+
+    def map_and_loss(m, x, y, aux):
+        # decreases to an exact plateau: |w| clipped at 0.5
+        return jnp.maximum(jnp.abs(m.w), 0.5) + 0.0 * jnp.sum(x[(0, 0)]), aux
+
+    for cls, kw in [("TrainLoss", {}), ("ValLoss", {}), ("TrainLoss", {"patience": 2}), ("EpochStop", {})]:
+        for w0 in [2.0]:
+            if cls == "EpochStop":
+                sc = ml.EpochStop(3)
+            else:
+                sc = getattr(ml, cls)(**kw)
+            m0 = Tiny(w0)
+            val = (X, X) if cls == "ValLoss" else (None, None)
+            best, _, tl, vl = ml.train(X, X, map_and_loss, m0, random.PRNGKey(0), sc, 2, optax.sgd(0.25), val[0], val[1])
+            n += 1
+            wb = float(best.w)
+            if cls == "EpochStop":
+                ok = abs(wb - (w0 - 0.25 * 2 * 3)) < 1e-4 or abs(wb) <= 0.5 + 1e-6
+            else:
+                ok = wb < w0 - 1e-6 and abs(abs(float(map_and_loss(best, X, X, None)[0])) - 0.5) < 1e-6
+            if not ok:
+                fails.append({"name": f"train/{cls}{kw}", "detail": f"training with {cls}{kw} returned w={wb} from w0={w0} (no epoch ran, or not the best model)",
+                              "request": {"cls": "train"}})
+    return n, fails
+
+
 def main():
     mode = sys.argv[1]
     req = json.loads(sys.stdin.read() or "{}")
+    if mode in ("replay", "search") and req.get("cls") == "train":
+        n, f = train_runs()
+        print(json.dumps({"ok": True, "confirmed": bool(f), "detail": f[:2]}))
+        return
     if mode == "replay":
         if "history" in req:
             n, f = histories("quick")
@@ -150,6 +199,8 @@ def main():
         print(json.dumps(search(req)))
     else:
         n, fails = histories(req.get("tier", "quick"))
+        n2, f2 = train_runs()
+        n, fails = n + n2, fails + f2
         print(json.dumps({"ok": True, "evaluations": n, "failures": fails, "grid": "histories over {1.0,0.5,0.75} up to length 4 (quick) / 6 (thorough), patience 0..3, delta {0,0.3}, 4 representations"}))
 
 
